@@ -645,7 +645,7 @@ def mutate(rng, spec, ci):
             return None
         start = len(ci.in_slots) - 1
         items = list(n.input)[start:]
-        k = rng.choice([0, 1, 2, 3])
+        k = rng.choice([0, 1, 2, 3, 3, 12])
         if not items and k:
             return None
         new = [items[i % len(items)] for i in range(k)] if items else []
@@ -659,7 +659,7 @@ def mutate(rng, spec, ci):
 # ------------------------------------------------------------------------------------------------ hand-written calls (subgraph operators)
 
 
-HAND_NAMES = ["hand_if_add_mul", "hand_loop_carry_scan", "hand_sequencemap_add"]
+HAND_NAMES = ["hand_if_add_mul", "hand_loop_carry_scan", "hand_loop_no_inputs", "hand_sequencemap_add"]
 
 
 def hand_plans(v):
@@ -726,6 +726,22 @@ def hand_plans(v):
 
     plans.append(mk("Loop", "hand_loop_carry_scan", loop_kw, [("O", 0), ("O", None), ("V", [1])], [t_i, t_f23],
                     {"body": ([["T", I, [1]], ["T", B, [1]], t_f23], [["T", B, [1]], t_f23, t_f23])}, loop_ref, 2))
+    # Loop without M, cond and carried values: both leading optionals omitted, min_input = 2 keeps the two empty names
+    def loop0_kw(vs):
+        return {"M": None, "cond": None, "v_initial": [], "body": lambda i, c: [c, op.add(i, i)]}
+
+    def loop0_ref(outs):
+        body = helper.make_graph(
+            [helper.make_node("Identity", ["c_in"], ["c_out"]), helper.make_node("Add", ["i", "i"], ["s_out"])], "body",
+            [helper.make_value_info("i", L.typeproto_of_tspec(t_i)), helper.make_value_info("c_in", L.typeproto_of_tspec(t_b))],
+            [helper.make_value_info("c_out", L.typeproto_of_tspec(t_b)), helper.make_value_info("s_out", L.typeproto_of_tspec(t_i))])
+        n = helper.make_node("Loop", ["", ""], outs, body=body)
+        g = helper.make_graph([n], "ref", [], [helper.make_value_info(o, onnx.TypeProto()) for o in outs])
+        return helper.make_model(g, opset_imports=[helper.make_operatorsetid("", v)])
+
+    plans.append(mk("Loop", "hand_loop_no_inputs", loop0_kw, [("O", None), ("O", None), ("V", [])], [],
+                    {"body": ([["T", I, [1]], ["T", B, [1]]], [["T", B, [1]], ["T", I, [1]]])}, loop0_ref, 1))
+
     # SequenceMap: body over the element type
     t_seq = ["S", t_f23]
 
@@ -1189,7 +1205,7 @@ def run(run: Run) -> int:
     st = {"tags": {}, "skips": {}, "unsupported": {}}
     class_table_obligations(run, st)
     corpus = load_corpus()
-    n_mut = 2600 if run.tier == "quick" else 40000
+    n_mut = 6000 if run.tier == "quick" else 60000
     cov_ops, valid_ops = {v: set() for v in VERSIONS}, {v: set() for v in VERSIONS}
     seen_con, base_specs, per_module = set(), [], {}
     for v in VERSIONS:
@@ -1215,7 +1231,7 @@ def run(run: Run) -> int:
             seen_con.add(key)
             base_specs.append(s)
     all_specs = list(base_specs)
-    hand_ops = {"hand_if_add_mul": "If", "hand_loop_carry_scan": "Loop", "hand_sequencemap_add": "SequenceMap"}
+    hand_ops = {"hand_if_add_mul": "If", "hand_loop_carry_scan": "Loop", "hand_loop_no_inputs": "Loop", "hand_sequencemap_add": "SequenceMap"}
     for v in VERSIONS:
         for name in HAND_NAMES:
             if hand_ops[name] in module(v)._OPERATORS:
